@@ -580,7 +580,19 @@ func checkC07Reread(p *Prog, r *Report, ru *Rule, sh *ssa.Function) {
 			if !ok {
 				return
 			}
-			if fv, base := fieldAddrOf(st.Addr); nil != fv && typeIs(base.Type(), ModPath+"/internal/hsrv", "Server") {
+			fv, base := fieldAddrOf(st.Addr)
+			/* (A field of a struct which is itself a field of the Server
+			— through a pointer taken to it or not — is Server state.) */
+			for nil != fv {
+				nb := resolveCell(base)
+				if fa, isFA := nb.(*ssa.FieldAddr); isFA {
+					base = fa.X
+					continue
+				}
+				base = nb
+				break
+			}
+			if nil != fv && typeIs(base.Type(), ModPath+"/internal/hsrv", "Server") {
 				nst++
 				ru.Bad(fnName(f)+":stores-Server."+fv.Name(), posOf(st), "a request handler writes Server.%s: state carried from one request to the next (e.g. a cached template) breaks re-reading per request", fv.Name())
 			}
